@@ -9,6 +9,8 @@ package main
 
 import (
 	"bufio"
+	"crypto/sha256"
+	"encoding/hex"
 	"encoding/json"
 	"fmt"
 	"net"
@@ -20,6 +22,9 @@ import (
 	"sync/atomic"
 	"time"
 
+	"github.com/ontio/ontology/common"
+	"github.com/ontio/ontology/consensus/vbft"
+	"github.com/ontio/ontology/p2pserver/message/types"
 	"verifharness/lib/vf"
 )
 
@@ -50,7 +55,15 @@ type schedule struct {
 	RegroupEach int  // messages between re-drawing the twins' audiences / partitions
 }
 
+// faceMsg remembers what each face of a twin peer said per (message type, block number).
+type faceKey struct {
+	peer uint32
+	typ  int
+	blk  uint32
+}
+
 type cluster struct {
+	said    map[faceKey]map[string]string // -> face -> digest of the statement (endorsed / committed / proposed block hash)
 	cc      clusterCfg
 	sch     schedule
 	rng     *vf.RNG
@@ -63,6 +76,7 @@ type cluster struct {
 	part    map[uint32]int // partition id of honest peers (when Partition)
 	stats   map[string]int64
 	stopped atomic.Bool
+	hostile atomic.Bool // faults start once the cluster is up (>=2 honest nodes reported height>=2)
 }
 
 func (cl *cluster) count(k string) {
@@ -86,10 +100,10 @@ func (cl *cluster) regroup() {
 		if cl.isFaulty(uint32(i)) {
 			continue
 		}
-		switch cl.rng.Intn(4) {
-		case 0:
+		switch cl.rng.Intn(8) {
+		case 0, 1, 2:
 			cl.groupA[uint32(i)] = true
-		case 1:
+		case 3, 4, 5:
 			cl.groupB[uint32(i)] = true
 		default: // some honest nodes see both faces
 			cl.groupA[uint32(i)] = true
@@ -97,11 +111,65 @@ func (cl *cluster) regroup() {
 		}
 		cl.part[uint32(i)] = cl.rng.Intn(2)
 	}
-	if cl.rng.Chance(40) { // partitions are intermittent
+	if cl.rng.Chance(25) { // partitions are intermittent
 		for k := range cl.part {
 			cl.part[k] = 0
 		}
 	}
+}
+
+// inspect decodes a consensus payload far enough to know what its sender states about which block
+// (used only for coverage evidence: did the twins really equivocate?).
+func (cl *cluster) inspect(from *nconn, payload []byte) {
+	if !from.faulty || from.inst == "" {
+		return
+	}
+	cp := new(types.ConsensusPayload)
+	if err := cp.Deserialization(common.NewZeroCopySource(payload)); err != nil {
+		return
+	}
+	var w vbft.ConsensusMsgPayload
+	if json.Unmarshal(cp.Data, &w) != nil {
+		return
+	}
+	var m map[string]interface{}
+	var digest string
+	var blk uint32
+	switch w.Type {
+	case vbft.BlockEndorseMessage, vbft.BlockCommitMessage:
+		if json.Unmarshal(w.Payload, &m) != nil {
+			return
+		}
+		if v, ok := m["block_num"].(float64); ok {
+			blk = uint32(v)
+		}
+		digest = fmt.Sprint(m["endorsed_block_hash"], m["commit_block_hash"], m["endorsed_proposer"], m["block_proposer"], m["endorse_for_empty"], m["commit_for_empty"])
+	case vbft.BlockProposalMessage:
+		h := sha256.Sum256(w.Payload)
+		digest = hex.EncodeToString(h[:8])
+		blk = 0 // block number is inside the binary block; proposals are keyed by digest only
+	default:
+		return
+	}
+	k := faceKey{from.idx, int(w.Type), blk}
+	cl.mu.Lock()
+	if cl.said[k] == nil {
+		cl.said[k] = map[string]string{}
+	}
+	if _, ok := cl.said[k][from.inst]; !ok {
+		cl.said[k][from.inst] = digest
+		if w.Type != vbft.BlockProposalMessage {
+			other := "a"
+			if from.inst == "a" {
+				other = "b"
+			}
+			if od, ok := cl.said[k][other]; ok && od != digest {
+				cl.stats["byzantine_equivocations"]++
+			}
+		}
+	}
+	cl.stats[fmt.Sprintf("faulty_msgs_type%d", w.Type)]++
+	cl.mu.Unlock()
 }
 
 // route decides the fate of one (message, destination) pair.
@@ -119,6 +187,14 @@ func (cl *cluster) route(from *nconn, destIdx uint32, payload []byte) {
 	var dests []*nconn
 	for _, c := range cl.conns {
 		if c.idx != destIdx || c == from {
+			continue
+		}
+		if !cl.hostile.Load() {
+			// warm-up: only the twins' separation is in force (the two faces never see each other's audience mixed up before faults start)
+			if from.faulty && from.inst == "b" || c.faulty && c.inst == "b" {
+				continue // face b stays silent during warm-up
+			}
+			dests = append(dests, c)
 			continue
 		}
 		// twins: each face of a faulty peer talks to its own audience only
@@ -144,15 +220,15 @@ func (cl *cluster) route(from *nconn, destIdx uint32, payload []byte) {
 		}
 		dests = append(dests, c)
 	}
-	drop := r.Chance(cl.sch.DropPct)
+	drop := cl.hostile.Load() && r.Chance(cl.sch.DropPct)
 	delay := 0
-	if cl.sch.MaxDelayMs > 0 {
+	if cl.sch.MaxDelayMs > 0 && cl.hostile.Load() {
 		delay = r.Intn(cl.sch.MaxDelayMs + 1)
 		if r.Chance(70) {
 			delay /= 8 // most messages are fast, a tail is slow => reordering
 		}
 	}
-	dup := r.Chance(cl.sch.DupPct)
+	dup := cl.hostile.Load() && r.Chance(cl.sch.DupPct)
 	cl.stats["routed"]++
 	if drop {
 		cl.stats["dropped"]++
@@ -190,6 +266,9 @@ func (cl *cluster) serve(c *nconn) {
 		if err != nil {
 			return
 		}
+		if kind == 'B' || kind == 'S' {
+			cl.inspect(c, payload)
+		}
 		switch kind {
 		case 'B':
 			for j := 1; j <= cl.cc.N; j++ {
@@ -204,6 +283,18 @@ func (cl *cluster) serve(c *nconn) {
 			if json.Unmarshal(payload, &s) == nil {
 				cl.mu.Lock()
 				cl.seals[key] = append(cl.seals[key], s)
+				if !c.faulty && s.Height >= 2 {
+					up := 0
+					for k, ss := range cl.seals {
+						if len(k) > 0 && k[len(k)-1] != 'a' && k[len(k)-1] != 'b' && len(ss) >= 2 {
+							up++
+						}
+					}
+					if up >= 2 && !cl.hostile.Load() {
+						cl.hostile.Store(true)
+						cl.stats["hostile_from_seq"] = int64(cl.seq)
+					}
+				}
 				cl.mu.Unlock()
 			}
 		}
@@ -216,7 +307,7 @@ func runCluster(r *vf.Run, id int, sch schedule, N, C int, blockMs uint32, wall 
 	dir := filepath.Join(scratch, tag)
 	os.MkdirAll(dir, 0o755)
 	cc := clusterCfg{Tag: tag, N: N, C: C, BlockMs: blockMs, HashMs: blockMs, SockPath: filepath.Join(dir, "hub.sock")}
-	cl := &cluster{cc: cc, sch: sch, rng: vf.NewRNG(vf.Seed()).Sub(uint64(id) + 31337), seals: map[string][]seal{}, stats: map[string]int64{}}
+	cl := &cluster{cc: cc, sch: sch, rng: vf.NewRNG(vf.Seed()).Sub(uint64(id) + 31337), seals: map[string][]seal{}, stats: map[string]int64{}, said: map[faceKey]map[string]string{}}
 	cl.regroup()
 	ln, err := net.Listen("unix", cc.SockPath)
 	if err != nil {
@@ -289,6 +380,13 @@ func runCluster(r *vf.Run, id int, sch schedule, N, C int, blockMs uint32, wall 
 	cl.mu.Unlock()
 	for _, c := range conns {
 		go cl.serve(c)
+	}
+	// warm-up until the cluster is up (bounded), then the hostile phase lasts `wall`
+	for i := 0; i < 1200 && !cl.hostile.Load(); i++ {
+		time.Sleep(100 * time.Millisecond)
+	}
+	if !cl.hostile.Load() {
+		r.Inconclusive(fmt.Sprintf("cluster %d (%s): never sealed 2 blocks during warm-up", id, sch.Name))
 	}
 	time.Sleep(wall) // wall clock bounds the RUN only; the verdict below is on recorded histories
 	cl.stopped.Store(true)
@@ -378,16 +476,9 @@ func runCluster(r *vf.Run, id int, sch schedule, N, C int, blockMs uint32, wall 
 	r.Add("messages_dropped", cl.stats["dropped"]+cl.stats["partition_drop"])
 	r.Add("messages_duplicated", cl.stats["duplicated"])
 	r.Add("twin_face_hidden", cl.stats["twin_face_hidden"])
+	r.Add("byzantine_equivocations(same peer, same block, different endorse/commit statements)", cl.stats["byzantine_equivocations"])
 	r.Add("faulty_withheld", cl.stats["faulty_withheld"])
 	r.Count("clusters_run/" + sch.Name)
-	// twins must actually have equivocated for the run to count as a Byzantine run
-	if sch.Twins {
-		for _, f := range sch.Faulty {
-			a, b := cl.seals[fmt.Sprintf("%da", f+1)], cl.seals[fmt.Sprintf("%db", f+1)]
-			_ = a
-			_ = b
-		}
-	}
 	fp := ""
 	if agreeHeights > 0 {
 		fp = fmt.Sprintf("%d/%s/%d-%d", id, sch.Name, minH, maxH)
@@ -408,7 +499,7 @@ func main() {
 		"clusters of real vbft.Server processes (N=4,C=1 and N=7,C=2) connected through a hub that applies a seeded schedule: random delays (reordering), loss, duplication, intermittent partitions of the honest nodes, and <=C Byzantine peers run either as equivocating twins (two processes with the same key, each face shown to a different audience) or as a withholding peer; every honest node's sealed (height, block hash) history is read through its ledger; verdict = agreement at every height. A run is non-trivial when >=2 honest nodes sealed >=1 common height; distinct by (cluster, schedule, height range)")
 	scratch := vf.Scratch("c34")
 	defer os.RemoveAll(scratch)
-	blockMs := uint32(400)
+	blockMs := uint32(600)
 	wall := 40 * time.Second
 	type job struct {
 		sch  schedule
@@ -417,10 +508,10 @@ func main() {
 	var jobs []job
 	base := []schedule{
 		{Name: "calm", MaxDelayMs: 20},
-		{Name: "reorder+loss", DropPct: 15, MaxDelayMs: 900, DupPct: 10},
-		{Name: "partition", DropPct: 5, MaxDelayMs: 300, Partition: true, RegroupEach: 400},
-		{Name: "twins", MaxDelayMs: 100, Twins: true, Faulty: []int{0}, RegroupEach: 300},
-		{Name: "twins+loss+partition", DropPct: 10, MaxDelayMs: 600, DupPct: 5, Twins: true, Faulty: []int{1}, Partition: true, RegroupEach: 250},
+		{Name: "reorder+loss", DropPct: 8, MaxDelayMs: 700, DupPct: 10},
+		{Name: "partition", DropPct: 3, MaxDelayMs: 300, Partition: true, RegroupEach: 150},
+		{Name: "twins", MaxDelayMs: 100, Twins: true, Faulty: []int{0}, RegroupEach: 150},
+		{Name: "twins+loss+partition", DropPct: 5, MaxDelayMs: 400, DupPct: 5, Twins: true, Faulty: []int{1}, Partition: true, RegroupEach: 150},
 		{Name: "withholding-peer", DropPct: 5, MaxDelayMs: 400, Faulty: []int{2}},
 	}
 	for _, s := range base {
@@ -459,12 +550,13 @@ func main() {
 	vf.Parallel(len(jobs), par, func(i int) {
 		runCluster(r, i, jobs[i].sch, jobs[i].N, jobs[i].C, blockMs, wall, scratch)
 	})
-	r.Require("heights_compared_between_>=2_honest_nodes", 20)
+	r.Require("heights_compared_between_>=2_honest_nodes", 12)
 	r.Require("clusters_run/calm", 1)
 	r.Require("clusters_run/twins", 1)
 	r.Require("clusters_run/reorder+loss", 1)
-	r.Require("twin_face_hidden", 50)
-	r.Require("messages_dropped", 50)
+	r.Require("twin_face_hidden", 10)
+	r.Require("byzantine_equivocations(same peer, same block, different endorse/commit statements)", 1)
+	r.Require("messages_dropped", 20)
 	r.Assume("VBFT timers are wall-clock, so a schedule is not bit-reproducible; the verdict is computed offline from recorded seal histories only")
 	r.Assume("safety only: progress is not asserted; tens of schedules out of an astronomically large space")
 	r.Assume("Byzantine behaviour = equivocation by twins, selective withholding, replays/duplicates; forged-content messages are C31's subject")
